@@ -45,7 +45,7 @@ var maxInt64 = big.NewInt(1<<63 - 1)
 // rangeOracle implements DESIGN A.6 from the property statement, independent of
 // range.go. Whitespace, explicit signs and numbers beyond int64 are don't-care
 // between the trimmed/clipped reading and 416; multiple ranges are don't-care
-// between 416, 501 and the whole body.
+// between 416 and the whole body.
 func rangeOracle(size int64, h string) rangeVerdict {
 	if h == "" {
 		return rangeVerdict{kind: "whole", class: "none"}
@@ -215,11 +215,10 @@ func checkRange(r *rep.Reporter, kind, via string, size int64, full []byte, h st
 				bad("neither-reading", m+" (416 would also have been accepted)")
 			}
 		}
-	case "dontcare": // multiple ranges: 416, NotImplemented or the whole body
-		okk := is416 || (o.status == 501 && o.code == "NotImplemented") ||
-			(o.status >= 200 && o.status < 300 && bytes.Equal(o.body, full))
+	case "dontcare": // multiple ranges: 416, or the header is ignored and the whole body served; no other failure
+		okk := is416 || (o.status >= 200 && o.status < 300 && bytes.Equal(o.body, full))
 		if !okk {
-			bad("multi-range-failure", fmt.Sprintf("status %d %s", o.status, o.code))
+			bad("multi-range-failure", fmt.Sprintf("status %d %s: a range value may be answered with the bytes or with 416 InvalidRange, nothing else", o.status, o.code))
 		}
 	}
 }
@@ -487,11 +486,11 @@ func runC11(c *Ctx) {
 	r.Sample(map[string]interface{}{"size": 5, "range": "bytes=1-9", "oracle": "bytes 1-4/5"})
 	r.Sample(map[string]interface{}{"size": 5, "range": "bytes=-7", "oracle": "416 InvalidRange"})
 	r.Sample(map[string]interface{}{"size": 5, "range": "bytes=0-9223372036854775807", "oracle": "bytes 0-4/5"})
-	r.Sample(map[string]interface{}{"size": 5, "range": "bytes=0-1,3-4", "oracle": "don't-care: 416 | 501 | whole body"})
+	r.Sample(map[string]interface{}{"size": 5, "range": "bytes=0-1,3-4", "oracle": "416 | whole body"})
 	r.Require("verdict_range", 1000)
 	r.Require("verdict_416", 1000)
 	r.Assume("a ranged read may succeed with any 2xx status (the server answers 200 + Content-Range; the statement does not fix the status)",
-		"whitespace, explicit '+' signs and numbers beyond int64 are accepted either as the trimmed/clipped reading or as 416; multiple ranges as 416, 501 or the whole body")
+		"whitespace, explicit '+' signs and numbers beyond int64 are accepted either as the trimmed/clipped reading or as 416; multiple ranges as 416 or the whole body")
 }
 
 func goGetRange(b gofakes3.Backend, bucket, key string, rr *gofakes3.ObjectRangeRequest) (o rangeObs) {
